@@ -91,6 +91,25 @@ UniqAll(rs, nc, merge) == {Merged(rs, Class(rs, nc, k), k, merge) : k \in Keys(r
 Uniq(rs, opt) == LET all == UniqAll(rs, opt.ncat, opt.merge)
                  IN  IF opt.ns THEN {o \in all : o.count # 1} ELSE all
 
+(* The same set computed in one pass over the records (an accumulator per key): the form used to   *)
+(* validate traces of 10^3 records; theorem FoldAgrees states that it is the definition above.      *)
+RECURSIVE Accumulate(_, _, _, _, _)
+Accumulate(rs, i, n, nc, acc) ==          \* acc[sequence][category values] = [count, vec]
+  IF i > n THEN acc
+  ELSE LET r     == rs[i]
+           s     == r.seq
+           c     == [j \in 1..nc |-> Val(r, j)]
+           inner == IF s \in DOMAIN acc THEN acc[s] ELSE <<>>
+           old   == IF c \in DOMAIN inner THEN inner[c] ELSE [count |-> 0, vec |-> ZeroVec]
+           new   == [count |-> old.count + r.count, vec |-> VecAdd(old.vec, Weight(r))]
+           upd   == IF c \in DOMAIN inner THEN [inner EXCEPT ![c] = new] ELSE (c :> new) @@ inner
+       IN  Accumulate(rs, i + 1, n, nc, IF s \in DOMAIN acc THEN [acc EXCEPT ![s] = upd] ELSE (s :> upd) @@ acc)
+UniqFold(rs, opt) ==
+  LET acc == Accumulate(rs, 1, Len(rs), opt.ncat, <<>>)
+      all == UNION {{[seq |-> s, cat |-> c, count |-> acc[s][c].count,
+                      merged |-> IF opt.merge THEN acc[s][c].vec ELSE ZeroVec] : c \in DOMAIN acc[s]} : s \in DOMAIN acc}
+  IN  IF opt.ns THEN {o \in all : o.count # 1} ELSE all
+
 (* obidemerge -d k on a set of merged records: one record per value of the map, with that weight as count *)
 DemergeOne(o) == {[seq |-> o.seq, cat |-> o.cat, count |-> o.merged[j], mt |-> "val", mv |-> MrgKeySeq[j], mm |-> ZeroVec] :
                      j \in {j \in 1..K : o.merged[j] > 0}}
@@ -190,6 +209,7 @@ ImplAgreesT(r, full, out) ==
 Accounting == LET r == rs  full == UniqAll(r, opt.ncat, opt.merge)  out == WithNs(full, opt.ns)
               IN  /\ OnePerKeyT(r, full, out) /\ ConservationT(r, full, out)
                   /\ SingletonExactT(r, full, out) /\ MapTotalIsCountT(r, full, out)
+                  /\ UniqFold(r, opt) = out          \* FoldAgrees
 Laws ==       Len(idx) <= LawsMaxN =>
               LET r == rs  full == UniqAll(r, opt.ncat, opt.merge)  out == WithNs(full, opt.ns)
               IN  /\ DemergeInverseT(r, full, out) /\ HomomorphismT(r, full, out)
@@ -202,6 +222,7 @@ MapTotalIsCount  == LET r == rs full == UniqAll(r, opt.ncat, opt.merge) IN MapTo
 DemergeInverse   == LET r == rs full == UniqAll(r, opt.ncat, opt.merge) IN DemergeInverseT(r, full, WithNs(full, opt.ns))
 Homomorphism     == LET r == rs full == UniqAll(r, opt.ncat, opt.merge) IN HomomorphismT(r, full, WithNs(full, opt.ns))
 OrderIndependent == LET r == rs full == UniqAll(r, opt.ncat, opt.merge) IN OrderIndependentT(r, full, WithNs(full, opt.ns))
+FoldAgrees       == UniqFold(rs, opt) = Uniq(rs, opt)
 ImplAgrees       == LET r == rs full == UniqAll(r, opt.ncat, opt.merge) IN ImplAgreesT(r, full, WithNs(full, opt.ns))
 
 ---------------------------------------------------------------------------
